@@ -1,4 +1,4 @@
-CONSTANT N = 7
+CONSTANT N = 6
 INIT Init
 NEXT Next
 INVARIANT Inv_Delivered
